@@ -16,7 +16,7 @@ def outStr : Out Bytes → String
   | .fault s => s!"fault:{s}"
 
 /-- the common part of a parse/show result line for a live packet whose outermost parser is `cls` -/
-def describe (os : List AnyObj) (cls : String) : String :=
+def describeCore (os : List AnyObj) (cls : String) : String :=
   let size := Wire.sizeOf (sems os)
   let ser := serializeObjs os
   let head := s!"ok {chainStr os} size={size} ser={outStr ser}"
@@ -33,6 +33,13 @@ def describe (os : List AnyObj) (cls : String) : String :=
     | .fault s => s!"{head} re=fault:{s} ser2=-"
     | .unmodelled c => s!"unmodelled {c}"
   | _ => s!"{head} re=- ser2=-"
+
+/-- `PDU::serialize` calls `prepare_for_serialize()` first; for a top-level IP with source 0.0.0.0 that asks the host's
+    routing table for a source address (`Ip.envDependentTop`): the wire model has no parameter for it -/
+def describe (os : List AnyObj) (cls : String) : String :=
+  match os with
+  | .ip o :: _ => if Ip.envDependentTop o then "unmodelled IP::prepare_for_serialize(NetworkInterface)" else describeCore os cls
+  | _ => describeCore os cls
 
 structure State where
   built : List AnyObj := []
